@@ -85,6 +85,46 @@ theorem mem_iff_ownedS (g : G) (hW : WF g = true) (R A : List Nat) (hOK : LinkOK
       · exact h
       · exact absurd h.1 hy
 
+/-- the same with any description `P` of the non-link part (elements satisfying `P` are never links): a Link is in the
+list iff it joined at least two connection points, one of them in `P`, and at most one is not in `P` -/
+theorem mem_iff_closure (g : G) (hW : WF g = true) (P : Nat → Prop) (A : List Nat) (hOK : LinkOK g A)
+    (hnl : ∀ e, P e → g.cls? e ≠ some .link)
+    (hmem : ∀ y, g.cls? y ≠ some .link → (y ∈ A ↔ P y)) (y : Nat) :
+    y ∈ A ↔ P y ∨ (g.cls? y = some .link ∧ 2 ≤ (g.nbrs y .connects .cp).length ∧ (∃ e ∈ g.nbrs y .connects .cp, P e) ∧
+      ∀ e1 ∈ g.nbrs y .connects .cp, ∀ e2 ∈ g.nbrs y .connects .cp, ¬ P e1 → ¬ P e2 → e1 = e2) := by
+  by_cases hy : g.cls? y = some .link
+  · have hends : ∀ e ∈ g.nbrs y .connects .cp, (e ∈ A ↔ P e) := fun e he =>
+      hmem e (by rw [mem_nbrs_cls _ _ _ _ _ he]; intro h; cases h)
+    rw [hOK y hy]
+    have hnd := (wfLink_at (wf_link hW) hy).1
+    have hlive : (live g A y).length ≤ 1 ↔
+        ∀ e1 ∈ g.nbrs y .connects .cp, ∀ e2 ∈ g.nbrs y .connects .cp, ¬ P e1 → ¬ P e2 → e1 = e2 := by
+      unfold live
+      rw [length_filter_le_one_iff _ hnd]
+      constructor
+      · intro h e1 h1 e2 h2 n1 n2
+        apply h e1 h1 e2 h2
+        · simpa [List.contains_eq_mem] using fun h' => n1 ((hends e1 h1).mp h')
+        · simpa [List.contains_eq_mem] using fun h' => n2 ((hends e2 h2).mp h')
+      · intro h e1 h1 e2 h2 n1 n2
+        apply h e1 h1 e2 h2
+        · intro h'; have := (hends e1 h1).mpr h'; simp [List.contains_eq_mem, this] at n1
+        · intro h'; have := (hends e2 h2).mpr h'; simp [List.contains_eq_mem, this] at n2
+    have hex : (∃ e ∈ g.nbrs y .connects .cp, e ∈ A) ↔ ∃ e ∈ g.nbrs y .connects .cp, P e :=
+      ⟨fun ⟨e, he, h⟩ => ⟨e, he, (hends e he).mp h⟩, fun ⟨e, he, h⟩ => ⟨e, he, (hends e he).mpr h⟩⟩
+    rw [hlive, hex]
+    constructor
+    · intro h; exact Or.inr ⟨hy, h⟩
+    · rintro (h | h)
+      · exact absurd hy (hnl y h)
+      · exact h.2
+  · rw [hmem y hy]
+    constructor
+    · exact Or.inl
+    · rintro (h | h)
+      · exact h
+      · exact absurd h.1 hy
+
 /-- an element already deleted took everything it owns (links apart) with it -/
 theorem own_absorbed {g : G} {A : List Nat} (hA : InvA g A) {x y : Nat} (hx : x ∈ A) (h : Own g x y) : y ∈ A := by
   obtain ⟨i, hb, rfl | hp⟩ := h
